@@ -247,6 +247,7 @@ def run_souden_wmwf(key):
 
 
 def subchecks(tier, seed):
+    seeds_ = [seed] if tier != 'thorough' else [seed] + [seed * 1000 + v for v in range(1, 5)]
     thorough = tier == 'thorough'
     Ds = (2, 3, 5, 8)
     Fs = (1, 2, 32) if thorough else (1, 2, 5)
@@ -255,43 +256,46 @@ def subchecks(tier, seed):
     subs = []
 
     def mvdr_cases():
-        for D in Ds:
-            for F in Fs:
-                for K in (1, 2, 3):
-                    for sk in steers:
-                        for nk in noises:
-                            for stack in ('single', 'bins', 'stack'):
-                                if stack == 'single' and (F > 1 or K > 1):
-                                    continue
-                                if stack == 'bins' and K > 1:
-                                    continue
-                                yield (D, F, K, sk, nk, stack, 1.0, 1.0, seed)
-                                if sk == 'generic' and D in (2, 5):
-                                    for a_s, p_s in ((1e-6, 1.0), (1.0, 1e12), (1e6, 1e-12), (1e-8, 1e8), (1e100, 1.0),
-                                                     (1.0, 1e-100)):
-                                        yield (D, F, K, sk, nk, stack, a_s, p_s, seed)
+        for seed in seeds_:
+            for D in Ds:
+                for F in Fs:
+                    for K in (1, 2, 3):
+                        for sk in steers:
+                            for nk in noises:
+                                for stack in ('single', 'bins', 'stack'):
+                                    if stack == 'single' and (F > 1 or K > 1):
+                                        continue
+                                    if stack == 'bins' and K > 1:
+                                        continue
+                                    yield (D, F, K, sk, nk, stack, 1.0, 1.0, seed)
+                                    if sk == 'generic' and D in (2, 5):
+                                        for a_s, p_s in ((1e-6, 1.0), (1.0, 1e12), (1e6, 1e-12), (1e-8, 1e8), (1e100, 1.0),
+                                                         (1.0, 1e-100)):
+                                            yield (D, F, K, sk, nk, stack, a_s, p_s, seed)
     subs.append(Sub('mvdr', ('D', 'F', 'K', 'steer', 'noise', 'stack', 'a_scale', 'p_scale', 'seed'),
                     mvdr_cases, run_mvdr))
 
     def lcmv_cases():
-        for D in Ds:
-            for F in Fs:
-                for K in (1, 2, 3):
-                    for sk in ('generic', 'generic1e3'):
-                        for nk in noises:
-                            for resp in ((1, 0, 0), (0, 1, 0.5), (-1, 0.25, 1), (0.5, 0.5, 0.5)):
-                                yield (D, F, K, sk, nk, resp, seed)
+        for seed in seeds_:
+            for D in Ds:
+                for F in Fs:
+                    for K in (1, 2, 3):
+                        for sk in ('generic', 'generic1e3'):
+                            for nk in noises:
+                                for resp in ((1, 0, 0), (0, 1, 0.5), (-1, 0.25, 1), (0.5, 0.5, 0.5)):
+                                    yield (D, F, K, sk, nk, resp, seed)
     subs.append(Sub('lcmv', ('D', 'F', 'K', 'steer', 'noise', 'resp', 'seed'), lcmv_cases, run_lcmv))
 
     def sw_cases():
-        for D in Ds:
-            for F in Fs:
-                for sk in steers:
-                    for nk in noises:
-                        for sigma in (1e-3, 1.0, 1e3):
-                            for ref in ('each', 'auto'):
-                                for mu in (0.0, 0.5, 1.0, 100.0):
-                                    yield (D, F, sk, nk, sigma, ref, mu, seed)
+        for seed in seeds_:
+            for D in Ds:
+                for F in Fs:
+                    for sk in steers:
+                        for nk in noises:
+                            for sigma in (1e-3, 1.0, 1e3):
+                                for ref in ('each', 'auto'):
+                                    for mu in (0.0, 0.5, 1.0, 100.0):
+                                        yield (D, F, sk, nk, sigma, ref, mu, seed)
     subs.append(Sub('souden_wmwf', ('D', 'F', 'steer', 'noise', 'sigma', 'ref', 'mu', 'seed'), sw_cases,
                     run_souden_wmwf))
     return subs
